@@ -187,6 +187,18 @@ pub fn run_case(case: &Case) -> Outcome {
                 real::touch_map(&mut db);
                 real::with_tracker(|t| t.counter_version += 1);
             }
+            Op::TagSet(k, v) => {
+                st.tags.insert(*k, *v);
+                real::tag_set(&mut db, *k, *v);
+                // every tracked mutable access bumps the field's counter (by design: readers of
+                // a tracked field re-run after any tracked mutation)
+                real::with_tracker(|t| t.tag_counter_version += 1);
+            }
+            Op::TagRemove(k) => {
+                st.tags.remove(k);
+                real::tag_remove(&mut db, *k);
+                real::with_tracker(|t| t.tag_counter_version += 1);
+            }
             Op::CallNode(n) => {
                 let n = *n % n_nodes;
                 let got = Real(&db).node(n);
